@@ -684,7 +684,7 @@ class C05(C04):
 
 
 LOSSLESS_V9 = ["UnsignedDataNumber", "Ip4Addr", "Ip6Addr", "Vec", "ProtocolType"]
-LOSSLESS_IX = ["UnsignedDataNumber", "Ip4Addr", "Ip6Addr", "Vec", "Float64"]
+LOSSLESS_IX = ["UnsignedDataNumber", "Ip4Addr", "Ip6Addr", "Float64"]
 
 
 class LosslessExporter(gen.Exporter):
@@ -695,7 +695,7 @@ class LosslessExporter(gen.Exporter):
         if rng.random() < 0.15:
             num = rng.choice([43, 51, 59, 65, 97, 101, 300, 40000])      # unknown types: bytes kept verbatim
             return (num, rng.choice([1, 2, 3, 5, 8, 20]))
-        dt = rng.choice(LOSSLESS_V9)
+        dt = rng.choice([d for d in LOSSLESS_V9 if d in self.t.v9_by_dtype])
         num = rng.choice(self.t.v9_by_dtype[dt])
         ln = rng.choice(gen.NATURAL[dt]) if dt in gen.NATURAL else rng.choice([1, 2, 3, 4, 7, 16, 33])
         return (num, ln)
@@ -707,7 +707,7 @@ class LosslessExporter(gen.Exporter):
             return (rng.randrange(32768), rng.choice([1, 2, 4, 8, 20]), rng.choice([0, 9, 29305, 0xFFFFFFFF]))
         if k < 0.3:
             return (rng.choice([0, 105, 491, 503, 1000, 32767]), rng.choice([1, 2, 4, 9]), None)
-        dt = rng.choice(LOSSLESS_IX)
+        dt = rng.choice([d for d in LOSSLESS_IX if d in self.t.ipfix_by_dtype])
         num = rng.choice(self.t.ipfix_by_dtype[dt])
         ln = rng.choice(gen.NATURAL[dt]) if dt in gen.NATURAL else rng.choice([1, 2, 3, 4, 7, 16, 33])
         return (num, ln, None)
@@ -863,6 +863,6 @@ class C17(Prop):
         return C04.nontrivial(self, case, obs)
 
 
-ALL = {p.pid: p for p in [C01(), C02(), C03(), C04(), C05(), C06(), C07(), C08(), C11(), C12(), C14()]}
+ALL = {p.pid: p for p in [C01(), C02(), C03(), C04(), C05(), C06(), C07(), C08(), C09(), C10(), C11(), C12(), C13(), C14(), C15(), C16(), C17()]}
 
 NOT_CLAIMED = {}
